@@ -118,24 +118,27 @@ func (w *World) Locate(qname string, c Client) LocResult {
 			ip := net.ParseIP(c.ECS.Addr)
 			var ip16 net.IP
 			clen := int(c.ECS.Source)
-			v4 := c.ECS.Family == 1
-			if v4 {
+			fam1 := c.ECS.Family == 1
+			if fam1 {
 				ip16 = ip.To4().To16()
 				clen += 96
 			} else {
 				ip16 = ip.To16()
 			}
+			// the address family of the client block decides which subnets can match; an
+			// IPv4-mapped address sent as family 2 (full length) is an IPv4 client
+			v4 := IsV4Block(ip16, clen)
 			loc, ml, ok := LPM(nets, id, ip16, clen, v4)
 			if ok && loc != [2]byte{} {
 				r.Loc, r.ViaECS, r.ECSMatched = loc, true, ml
-				if v4 {
+				if fam1 {
 					r.ExpScope = uint8(ml - 96)
 				} else {
 					r.ExpScope = uint8(ml)
 				}
 				return r
 			}
-			if v4 {
+			if fam1 {
 				r.ExpScope = 24
 			} else {
 				r.ExpScope = 48
